@@ -62,6 +62,8 @@ func mptEntries(r *engine.Run, rule string) []*ssa.Function {
 }
 
 func runC16(r *engine.Run) {
+	r.Rule("RACE-captured", "see C11: a function literal started as a goroutine inside a loop in core/util stores into no variable captured from the enclosing function (parallel workers that report failure into one shared error variable race on it whenever two of them fail)")
+	r.Rule("COPY-lock", "every method of a struct of core/util that holds a mutex has a pointer receiver (see C08)")
 	r.Rule("LOCK-mpt", "guarded-by discipline over every function reachable from the trie operations named in the property and from the exported methods of MemoryNodeDB/LevelNodeDB/ChangeCollector: root, deleteNodes, the stores' maps and level links and the collector's maps are accessed only with their owner's mutex held in the required mode (interprocedural must-lockset; writes need the write lock), constructor-only fields are never rewritten; `go` bodies start with nothing held")
 	r.Rule("LOCK-walk", "every node fetch of the trie (getNode) that is reachable from the operations that start at the trie's own root happens with the trie's mutex held (read or write): a walk holds the lock from reading the root to the last node, because writers physically remove replaced nodes. Named exception: IterateFrom starts from a node key supplied by the caller, reads no guarded state and is synchronised by its caller")
 	r.Rule("LOCK-snapshot", "SaveChanges takes its snapshot (ChangeCollector.Clone) with the trie's read lock held and writes from that snapshot, never from the live collector: one update is a sequence of AddChange calls that is atomic only under the trie lock; ChangeCollector.Clone copies every node it puts into the snapshot with CloneNode(); MerklePatriciaTrie.GetChanges reads the root, the changes and the deletes while it holds the trie's lock itself (one instant, not three separately locked getters)")
@@ -94,6 +96,8 @@ func runC16(r *engine.Run) {
 	wsc := checkGuards(r, "LOCK-statecache", exportedEntries(r, "LOCK-statecache", pkgSC, scOwners), scOwners, scGuards)
 	lockOrder(r, "LOCK-order", wsc, 10, "statecache")
 	whoReadOnly(r, "WHO-readonly")
+	copyLock(r, "COPY-lock", pkgUtil)
+	raceCaptured(r, "RACE-captured", pkgUtil, 0)
 }
 
 func orderCritical(r *engine.Run, w *engine.LockWorld) {
